@@ -121,7 +121,7 @@ def corders(n, tier):
     return uniq
 
 
-def variant_scn(base, order=None, corder=None, sorder=None, shift=0):
+def variant_scn(base, order=None, corder=None, sorder=None, shift=0, unnamed=False):
     sched, k = SCHEDS[base["sk"]]
     sched = json.loads(json.dumps(sched))
     if shift and sched["kind"] == "script":
@@ -134,6 +134,8 @@ def variant_scn(base, order=None, corder=None, sorder=None, shift=0):
         scn["corder"] = corder
     if sorder:
         scn["sorder"] = sorder
+    if unnamed:
+        scn["unnamed"] = True
     return scn
 
 
@@ -176,6 +178,11 @@ def variants(base, tier):
             if list(order) == stations and co == list(range(ncons)):
                 continue
             out.append(("net-order", {"order": list(order), "corder": co}))
+    # constraints without names (the network numbers them by position) in two insertion orders, run in the
+    # same process right after each other
+    out.append(("unnamed-constraints", {"unnamed": True}))
+    out.append(("unnamed-constraints", {"unnamed": True, "corder": list(range(ncons))[::-1]}))
+    out.append(("unnamed-constraints", {"unnamed": True, "corder": list(range(1, ncons)) + [0], "order": stations[1:] + stations[:1]}))
     for so in itertools.permutations(range(k)):
         if list(so) != list(range(k)):
             out.append(("session-order", {"sorder": list(so)}))
@@ -273,6 +280,10 @@ def replay(scn):
         return hashseed_check(scn["tier"], scn["n"])
     base = {k: v for k, v in scn.items() if k != "variant"}
     viol, _ = execute(base, only=scn.get("variant"))
+    if not viol:
+        # the difference may need what an earlier variant of the same base left behind in the process
+        # (module-level state in the library): re-execute the item's whole variant sequence
+        viol, _ = execute(base)
     return [{"signature": v[0], "what": v[1], "observed": v[2], "expected": v[3]} for v in viol]
 
 
